@@ -105,14 +105,18 @@ Section S.
         Done ({| o_tags := t'; o_ptr := (match p with Some b => Some b | None => o_ptr o end) |}, 0, h1)
     else Done ({| o_tags := t'; o_ptr := o_ptr o |}, r, h).
 
-  (* libwifi_set_*_ssid / _channel *)
-  Definition sk_set_tag (o : tobj) (num : Z) (data : list byte) (h : heap) : res (tobj * Z * heap) :=
-    let* '(o1, r, h1) := (if t_len (o_tags o) =? 0 then Done (o, 0, h) else sk_remove_tag o num h) in
-    if r =? 0 then sk_quick_add o1 num data h1 else Done (o1, r, h1).
-
   (* libwifi_check_tag, libwifi_dump_*: read the block when there is something to read *)
   Definition sk_read (o : tobj) (h : heap) : res unit :=
     if t_len (o_tags o) =? 0 then Done tt else h_deref (o_ptr o) h.
+
+  (* libwifi_set_*_ssid / _channel: check, add the new element, then remove the old one *)
+  Definition sk_set_tag (o : tobj) (num : Z) (data : list byte) (h : heap) : res (tobj * Z * heap) :=
+    let* present := (if t_len (o_tags o) =? 0 then Done 0
+                     else let* _ := sk_read o h in check_tag (o_tags o) num) in
+    if present <? 0 then Done (o, present, h) else
+    let* '(o1, r, h1) := sk_quick_add o num data h in
+    if negb (r =? 0) then Done (o1, r, h1) else
+    if 0 <? present then sk_remove_tag o1 num h1 else Done (o1, 0, h1).
 
   (* libwifi_free_* of a generator object *)
   Definition sk_free (o : tobj) (h : heap) : res (tobj * heap) :=
